@@ -1,14 +1,14 @@
 """C05 — scalar multiplication is the Z_r-module action (narrow structural clauses)."""
 from core import report
 from core.sm9 import Repo
-from . import shared, field, consts
+from . import shared, field, consts, ladder
 
 LADDERS = [("<crate::groups::G<P> as core::ops::Mul<crate::fields::fp::Fr>>::mul", "zero", "double", "add_assign")]
 
 
 def run(ctx):
     repo = Repo(ctx.dev)
-    rules = [consts.rule_generators("C05", repo), field.rule_ladder("C05", repo, LADDERS), field.rule_bits("C05", repo), field.rule_comm("C05", repo)]
+    rules = [consts.rule_generators("C05", repo), ladder.rule_ladder("C05", repo, LADDERS), field.rule_bits("C05", repo), field.rule_comm("C05", repo)]
     return report.emit(
         "C05", ctx.tier, ctx.seed, rules, ctx.started,
         "Generator literals on the curve/twist with order exactly r (analyser arithmetic on the literals); the scalar leaves Montgomery form before the bit scan (every instance of the "
